@@ -44,10 +44,11 @@ ASSUMPTIONS = {"C12": [
 PANEL_TRANSFORMERS = {
     "ColumnConcatenator": {}, "PAA": {"num_intervals": [2, 4]}, "SAX": {"word_length": [4], "window_size": [8]},
     "DWTTransformer": {"num_levels": [1, 2]}, "HOG1DTransformer": {}, "TSInterpolator": {"length": [8, 20]},
-    "PaddingTransformer": {"pad_length": [None, None, 40]}, "Tabularizer": {}, "RandomIntervalSegmenter": {"n_intervals": [2, "sqrt"]},
+    "PaddingTransformer": {"pad_length": [None, None, 40]}, "Tabularizer": {},
+    "RandomIntervalSegmenter": {"n_intervals": [2, "sqrt", "random"]},
     "SlidingWindowSegmenter": {"window_length": [3, 5]}, "SlopeTransformer": {"num_intervals": [2, 4]},
     "DerivativeSlopeTransformer": {}, "PlateauFinder": {"value": [0.0, "default", "default"]},
-    "RandomIntervalFeatureExtractor": {"n_intervals": [2, "sqrt"]},
+    "RandomIntervalFeatureExtractor": {"n_intervals": [2, "sqrt", "random"]},
     "TruncationTransformer": {"lower": [None, None, 8, 12]},
     "MatrixProfile": {"m": [4]}, "SFA": {"word_length": [4], "window_size": [8]},
     # (no Parallel inside: only the input-mutation, repeat-call and pickle clauses bite here)
@@ -134,6 +135,10 @@ def generate(prop, rng, tier):
                 if rng.random() < 0.3:
                     # the horizon as a caller-owned numpy array, written in descending order
                     calls[-1]["fh_form"] = "array_desc"
+                elif rng.random() < 0.15:
+                    # the same integers first as steps ahead, then as time points
+                    calls[-1]["fh_form"] = "ints_relative"
+                    calls.append({"m": "predict", "fh": calls[-1]["fh"], "fh_form": "ints_absolute"})
     elif cat == "series":
         r0 = rng.random()
         if r0 < 0.1:
@@ -428,6 +433,15 @@ def execute(prop, scen):
         def call_args(c):
             if c.get("fh_form") == "array_desc":
                 return (np.array(sorted(c["fh"], reverse=True)),)
+            if c.get("fh_form") in ("ints_relative", "ints_absolute"):
+                last = int(y.index[scen["n"] - 1])
+                if last < 0 or last > 60:
+                    return ()
+                ints = [last + int(s_) for s_ in c["fh"]]   # ahead of the cutoff either way
+                if c["fh_form"] == "ints_relative":
+                    return (ints,)
+                from sktime.forecasting.base import ForecastingHorizon
+                return (ForecastingHorizon(pd.Index(ints, dtype=np.int64), is_relative=False),)
             return ()
 
         def do_call(est, c, args):
